@@ -33,7 +33,7 @@
  "name": "jw_add_blocks_first_tag_uuid",
  "props": ["C03"],
  "level": "U/iter",
- "tier": "quick",
+ "tier": "thorough",
  "harness": "h_add_blocks",
  "loop_contracts": true,
  "includes": ["debugfs", "lib/ss", "e2fsck"],
